@@ -16,3 +16,28 @@ package crdt
 //@   loop 3 invariant visited-removed-dots-covered: d != nil && d.clock != nil && d.clock != s.clock && forall e any, j int :: visited(e) && has(s.delta.removed, e) && 0 <= j && j < len(s.delta.removed[e]) ==> d.clock[s.delta.removed[e][j].nodeID] >= s.delta.removed[e][j].counter
 //@   loop 4 invariant covered-so-far: -1 <= rangeindex && rangeindex < len(dots) && d != nil && d.clock != nil && d.clock != s.clock && forall e any, j int :: visited(e) && has(s.delta.removed, e) && 0 <= j && j < len(s.delta.removed[e]) && (s.delta.removed[e] != dots || j <= rangeindex) ==> d.clock[s.delta.removed[e][j].nodeID] >= s.delta.removed[e][j].counter
 //@   ensures removed-dots-are-covered: result != nil ==> forall e any, j int :: has(s.delta.removed, e) && 0 <= j && j < len(s.delta.removed[e]) ==> result.(*ORSet).clock[s.delta.removed[e][j].nodeID] >= s.delta.removed[e][j].counter
+
+// ---------------------------------------------------------------------------
+//@ property C38
+
+// the merged causal context is built as the pointwise maximum of both clocks (a
+// join): while o's clock is folded in, every node already visited holds
+// max(s, o) and every other node still holds s's counter; the inputs' clocks are
+// never written. (That the finished map is the maximum for every node needs the
+// loop-exit fact 'every key of o.clock was visited', which the solvers do not
+// connect to the entry state here - stated as an invariant, not as an ensures.)
+//@ spec func clk(m map[string]uint64, n string) uint64 = ite(has(m, n), m[n], 0)
+
+//@ func (*ORSet).Merge(s, other)
+//@   closed-heap on
+//@   bounds off
+//@   requires s.clock != nil && s.entries != nil && (is(other, *ORSet) ==> other.(*ORSet).clock != nil && other.(*ORSet).entries != nil)
+//@   loop 1 invariant clock-join-so-far: merged != nil && merged.clock != nil && merged.clock != s.clock && merged.clock != o.clock && forall n string :: clk(merged.clock, n) == ite(visited(n), max(clk(s.clock, n), clk(o.clock, n)), clk(s.clock, n))
+//@   loop 1 invariant inputs-untouched: forall n string :: clk(s.clock, n) == old(clk(s.clock, n)) && clk(o.clock, n) == old(clk(o.clock, n)) && has(o.clock, n) == old(has(o.clock, n))
+//@   loop 2 invariant never-behind-the-receiver: merged != nil && merged.clock != nil && forall n string :: clk(merged.clock, n) >= clk(s.clock, n)
+//@   loop 3 invariant never-behind-the-receiver: merged != nil && merged.clock != nil && forall n string :: clk(merged.clock, n) >= clk(s.clock, n)
+//@   loop 4 invariant never-behind-the-receiver: merged != nil && merged.clock != nil && forall n string :: clk(merged.clock, n) >= clk(s.clock, n)
+//@   loop 5 invariant never-behind-the-receiver: merged != nil && merged.clock != nil && forall n string :: clk(merged.clock, n) >= clk(s.clock, n)
+//@   loop 6 invariant never-behind-the-receiver: merged != nil && merged.clock != nil && forall n string :: clk(merged.clock, n) >= clk(s.clock, n)
+//@   ensures merged-clock-never-behind-the-receiver: is(other, *ORSet) ==> forall n string :: clk(result.(*ORSet).clock, n) >= clk(s.clock, n)
+//@   ensures clocks-of-the-inputs-untouched: is(other, *ORSet) ==> forall n string :: clk(s.clock, n) == old(clk(s.clock, n)) && clk(other.(*ORSet).clock, n) == old(clk(other.(*ORSet).clock, n))
